@@ -190,8 +190,12 @@ def run(ctx):
     fn64 = [f for f in u.func('phosg::fnv1a64') if len(params_of(f)) == 3][0]
     for f, prime, off, nm in ((fn32, 0x01000193, 0x811C9DC5, 'fnv1a32'), (fn64, 0x00000100000001B3, 0xCBF29CE484222325, 'fnv1a64')):
         ctx.fn('phosg::' + nm)
-        muls = [int_value(x['inner'][1]) for x in walk(body_of(f)) if x.get('kind') == 'BinaryOperator' and x.get('opcode') == '*']
-        ctx.check(muls == [prime], R, nm + '|prime', f, 'FNV prime', '%s multiplies by %s' % (nm, [hex(m) if m is not None else None for m in muls]))
+        muls = [int_value(x['inner'][1]) for x in walk_deep(body_of(f), u) if x.get('kind') in ('BinaryOperator', 'CompoundAssignOperator') and x.get('opcode') in ('*', '*=')]
+        # (the multiplier's position in the computation is decided by R5; here only the constant, when it is spelled in the function)
+        if muls:
+            ctx.check(all(m == prime for m in muls), R, nm + '|prime', f, 'FNV prime', '%s multiplies by %s' % (nm, [hex(m) if m is not None else None for m in muls]))
+        else:
+            ctx.ok(R, nm + '|prime', f, 'the multiplier is not spelled as a literal here; its value is checked by R5', nontrivial=False)
         sv = next((v for v in u.by_id.values() if v.get('kind') == 'VarDecl' and v.get('name') == nm.upper() + '_START'), None)
         val = None
         if sv is not None:
@@ -351,6 +355,10 @@ def run(ctx):
         ex = next((c for c in calls if call_name(c) == 'extend_to'), None)
         ln = next((c for c in calls if (call_name(c) or '').startswith('pput_u64')), None)
         wr = next((c for c in calls if call_name(c) == 'write'), None)
+        if not calls:
+            # the padding is not built through a StringWriter `w` in this function (shared helper, other buffer type)
+            ctx.undecided(R, nm + '|padding', f, 'the Merkle-Damgard padding of %s is not built with the StringWriter idiom this rule models (write / put_u8(0x80) / extend_to / pput_u64)' % nm)
+            continue
         ok_order = mk is not None and ex is not None and ln is not None and wr is not None and wr['_off'] < mk['_off'] < ex['_off'] < ln['_off']
         ctx.check(ok_order and int_value(call_args(mk)[0]) == 0x80, R, nm + '|marker-first', mk or f, 'tail, then 0x80, then zero fill, then the length', 'padding order is %s' % names)
         okx = False
@@ -406,7 +414,10 @@ def run(ctx):
         calls = [call_name(c) for c in walk(body_of(b)) if c.get('kind') == 'CXXMemberCallExpr' and canon(member_call_object(c)) == 'w' and (call_name(c) or '').startswith('put_')]
         args = [canon(call_args(c)[0]) for c in walk(body_of(b)) if c.get('kind') == 'CXXMemberCallExpr' and canon(member_call_object(c)) == 'w' and (call_name(c) or '').startswith('put_')]
         want_args = ['this.a0', 'this.b0', 'this.c0', 'this.d0'] if cls == 'MD5' else ['this.h[%d]' % i for i in range(nwords)]
-        ctx.check(calls == [put] * nwords and args == want_args, R, cls + '|bin', b, '%d words via %s in order' % (nwords, put), '%s::bin() writes %s of %s' % (cls, calls, args))
+        if args != want_args and not (calls and all(c_ == calls[0] for c_ in calls) and len(calls) == nwords):
+            ctx.undecided(R, cls + '|bin', b, '%s::bin() does not write its words with %d explicit w.put_u32x(word) calls (loop or other buffer): byte order not decided by this rule' % (cls, nwords))
+        else:
+            ctx.check(calls == [put] * nwords and args == want_args, R, cls + '|bin', b, '%d words via %s in order' % (nwords, put), '%s::bin() writes %s of %s' % (cls, calls, args))
         h = u.func('phosg::%s::hex' % cls)[0]
         pc = [c for c in walk(body_of(h)) if c.get('kind') == 'CallExpr' and call_name(c) == 'string_printf']
         okh = len(pc) == 1
@@ -416,45 +427,95 @@ def run(ctx):
             swapped = [strip(x).get('kind') == 'CallExpr' and call_name(strip(x)) == 'bswap32' for x in a]
             inner = [canon(call_args(strip(x))[0]) if s_ else canon(x) for x, s_ in zip(a, swapped)]
             okh = fmt == b'%08X' * nwords and inner == want_args and all(s_ == swap for s_ in swapped)
-        ctx.check(okh, R, cls + '|hex', h, '%d x %%08X, %s' % (nwords, 'byte-swapped words (little-endian digest)' if swap else 'words as stored (big-endian digest)'), '%s::hex() rendering changed (byte order of the words must match bin())' % cls)
+        dd = [c for c in walk_deep(body_of(h), u) if c.get('kind') == 'CallExpr' and call_name(c) == 'format_data_string' and
+              not any((ref_decl(y_) or {}).get('name') in ('SKIP_STRINGS', 'HEX_ONLY') for a_ in call_args(c) for y_ in walk(a_))]
+        if dd:
+            ctx.bad(R, cls + '|hex', dd[0], '%s::hex() renders through format_data_string without SKIP_STRINGS: that formatter switches to a quoted-string form whenever every byte is printable, so some digests are not rendered as hex' % cls)
+        elif len(pc) != 1 or string_lit(call_args(pc[0])[0]) != b'%08X' * nwords:
+            ctx.undecided(R, cls + '|hex', h, '%s::hex() is not a single string_printf of %d %%08X fields: rendering not decided by this rule' % (cls, nwords))
+        else:
+            ctx.check(okh, R, cls + '|hex', h, '%d x %%08X, %s' % (nwords, 'byte-swapped words (little-endian digest)' if swap else 'words as stored (big-endian digest)'), '%s::hex() rendering changed (byte order of the words must match bin())' % cls)
 
     # ---------------- R5
     R = 'C10-R5'
+    # CRC-32 and FNV-1a are decided semantically: the function is executed abstractly on 0..3
+    # symbolic input bytes and a symbolic seed (bit provenance with exact XOR combinations; table
+    # lookups and the multiplication are uninterpreted operations keyed by their operands) and the
+    # result must be, bit for bit, the expression the definition gives.  Loop form, helpers, early
+    # returns for empty input, ~x versus x ^ 0xFFFFFFFF ... make no difference; the seed is symbolic,
+    # so chaining (crc(b, crc(a)) = crc(ab)) is covered by the same comparison.
+    X = BVExec(u)
     crc = [f for f in u.func('phosg::crc32') if len(params_of(f)) == 3][0]
     ctx.fn('phosg::crc32')
-    cb = body_of(crc)
-    rets = [x for x in walk(cb) if x.get('kind') == 'ReturnStmt']
-    ctx.check(rets and all(nf(kids(r_)[0]) == '~cs' for r_ in rets), R, 'crc32|returns-inverted-state', rets[0] if rets else crc, 'every return yields ~cs',
-              'crc32 has a return that does not yield the inverted running state (%s): chaining over an empty chunk must return the seed unchanged' % [nf(kids(r_)[0]) for r_ in rets])
-    first = [strip(s_) for s_ in stmts_of(cb) if strip(s_).get('kind') == 'BinaryOperator']
-    ctx.check(first and nf(first[0]) == '(cs = ~cs)' and all(x.get('_off', 0) > first[0]['_off'] for x in walk(cb) if x.get('kind') == 'ForStmt'), R, 'crc32|seed-inverted', first[0] if first else crc, 'cs = ~cs before the loop', 'the seed is not inverted on entry')
-    lp = next((x for x in walk(cb) if x.get('kind') == 'ForStmt'), None)
-    okl = False
-    if lp is not None:
-        tv_ = next((v for v in walk(loop_body(lp)) if v.get('kind') == 'VarDecl'), None)
-        asg = [x for x in walk(loop_body(lp)) if x.get('kind') == 'BinaryOperator' and x.get('opcode') == '=' and canon(x['inner'][0]) == 'cs']
-        okl = tv_ is not None and int_type_info(dtype(tv_)) == (8, False) and nf(kids(tv_)[-1]) == '(cs ^ data[offset])' and len(asg) == 1 and nf(asg[0]['inner'][1]) == '((cs >> 8) ^ crc32_table[%s])' % tv_['name'] and \
-            nf(for_parts(lp)[2]) == '(offset < size)'
-        dv = var('data', crc)
-        okl = okl and dv is not None and 'uint8_t' in (qtype(dv) or '')
-    ctx.check(okl, R, 'crc32|step', lp or crc, 'cs = (cs >> 8) ^ table[(uint8_t)(cs ^ byte)] for every byte', 'crc32 loop step changed')
-    for f, nm in ((fn32, 'fnv1a32'), (fn64, 'fnv1a64')):
-        asg = [x for x in walk(body_of(f)) if x.get('kind') == 'BinaryOperator' and x.get('opcode') == '=' and canon(x['inner'][0]) == 'hash']
-        ok = len(asg) == 1
-        if ok:
-            e = strip(asg[0]['inner'][1])
-            ok = e.get('kind') == 'BinaryOperator' and e.get('opcode') == '*' and strip(e['inner'][0]).get('kind') == 'BinaryOperator' and strip(e['inner'][0]).get('opcode') == '^'
-            if ok:
-                xor = strip(e['inner'][0])
-                byte = next((y for y in walk(xor) if y.get('kind') == 'UnaryOperator' and y.get('opcode') == '*'), None)
-                ok = byte is not None and int_type_info(dtype(byte)) == (8, False) and 'hash' in leaves_of(xor)
-        rets = [x for x in walk(body_of(f)) if x.get('kind') == 'ReturnStmt']
-        ok = ok and rets and all(nf(kids(r_)[0]) == 'hash' for r_ in rets)
-        ctx.check(ok, R, nm + '|step', f, 'hash = (hash ^ unsigned byte) * prime; returns the raw state', '%s step is not xor-with-unsigned-byte then multiply, or a return does not yield the state' % nm)
+    tabv = next((v for v in u.by_id.values() if v.get('kind') == 'VarDecl' and v.get('name') == 'crc32_table' and kids(v)), None)
+    ctx.require(tabv is not None, 'crc32_table not found')
+
+    def mem_byte(i):
+        return [('i', ('mem', 'D', '0', i), k) for k in range(8)]
+    for n in range(0, 4):
+        ps = params_of(crc)
+        key = 'crc32|definition|%d-bytes' % n
+        try:
+            X.notes = []
+            v = X.call(crc, [], {}, bound={ps[0]['id']: Ptr('D', '0', 0), ps[1]['id']: const_bv(n, 64), ps[2]['id']: sym_bv('cs', 32)})
+        except Unsupported as e:
+            ctx.undecided(R, key, crc, 'crc32 is outside the supported statement forms (%s)' % e)
+            continue
+        if not isinstance(v, BV):
+            ctx.undecided(R, key, crc, 'crc32 does not evaluate to a value')
+            continue
+        st = [c_not(('i', 'cs', k)) for k in range(32)]
+        for i in range(n):
+            by = mem_byte(i)
+            idx = tuple(c_xor(st[k], by[k]) for k in range(8))
+            tab = [('i', ('tab', 'crc32_table', 0, idx), k) for k in range(32)]
+            st = [c_xor(st[k + 8] if k + 8 < 32 else 0, tab[k]) for k in range(32)]
+        want = [c_not(c) for c in st]
+        bad = expect_lanes(BV(32, v.b[:32]), want)
+        ctx.check(not bad, R, key, crc, 'crc32 of %d byte(s) with seed cs = ~step^%d(~cs), step(s, b) = (s >> 8) ^ table[(s ^ b) & 0xFF]' % (n, n),
+                  'crc32 over %d byte(s) is not the table-driven CRC of the seed and the bytes: %s%s' % (n, describe_mismatch(bad, 2), ' (an empty chunk must return the seed unchanged)' if n == 0 else ''))
+    for f, nm, W in ((fn32, 'fnv1a32', 32), (fn64, 'fnv1a64', 64)):
+        ctx.fn('phosg::' + nm)
+        prime = {32: 0x01000193, 64: 0x00000100000001B3}[W]
+        for n in range(0, 4):
+            ps = params_of(f)
+            key = '%s|definition|%d-bytes' % (nm, n)
+            try:
+                X.notes = []
+                v = X.call(f, [], {}, bound={ps[0]['id']: Ptr('D', '0', 0), ps[1]['id']: const_bv(n, 64), ps[2]['id']: sym_bv('hash', W)})
+            except Unsupported as e:
+                ctx.undecided(R, key, f, '%s is outside the supported statement forms (%s)' % (nm, e))
+                continue
+            if not isinstance(v, BV):
+                ctx.undecided(R, key, f, '%s does not evaluate to a value' % nm)
+                continue
+            st = [('i', 'hash', k) for k in range(W)]
+            for i in range(n):
+                by = mem_byte(i)
+                x_ = [c_xor(st[k], by[k] if k < 8 else 0) for k in range(W)]
+                st = u_op('mul', x_, const_bv(prime, W).b, W)
+            bad = expect_lanes(BV(W, v.b[:W]), st)
+            ctx.check(not bad, R, key, f, '%s of %d byte(s): hash = (hash ^ byte) * prime per byte, unsigned bytes, starting from the caller\'s hash' % (nm, n),
+                      '%s over %d byte(s) is not ((hash ^ b0) * P ^ b1) * P ... with P = 0x%X and zero-extended bytes: %s%s' % (nm, n, prime, describe_mismatch(bad, 2), ' (an empty chunk must return the running hash unchanged)' if n == 0 else ''))
         so = [g for g in u.func('phosg::' + nm) if len(params_of(g)) == 2][0]
-        calls = [c for c in walk(body_of(so)) if c.get('kind') == 'CallExpr' and call_name(c) == nm]
-        okf = len(calls) == 1 and [nf(a) for a in call_args(calls[0])] == ['data.data()', 'data.size()', 'hash'] and not any(x.get('kind') in LOOPS for x in walk(body_of(so)))
-        ctx.check(okf, R, nm + '|string-overload-forwards', so, 'string overload = pointer overload on (data(), size(), hash)', 'the std::string overload of %s does not forward to the byte-pointer overload (its own loop over `char` sign-extends bytes >= 0x80)' % nm)
+        calls = [c for c in walk(body_of(so)) if c.get('kind') == 'CallExpr']
+        fwd = [c for c in calls if [nf(a_) for a_ in call_args(c)] == ['data.data()', 'data.size()', 'hash']]
+        okf = len(fwd) == 1 and not any(x.get('kind') in LOOPS for x in walk(body_of(so)))
+        if okf:
+            # the callee must be (or forward to) a function with the definition above: evaluate it the same way on one byte
+            d_ = callee_decl(fwd[0], u)
+            g_ = None
+            if d_ is not None:
+                g_ = d_ if body_of(d_) is not None else next((m for m in u.functions if m.get('mangledName') == d_.get('mangledName') and body_of(m) is not None), None)
+            okf = g_ is not None and len(params_of(g_)) == 3
+            if okf and g_ is not f:
+                try:
+                    v = X.call(g_, [], {}, bound={params_of(g_)[0]['id']: Ptr('D', '0', 0), params_of(g_)[1]['id']: const_bv(1, 64), params_of(g_)[2]['id']: sym_bv('hash', W)})
+                    x_ = [c_xor(('i', 'hash', k), mem_byte(0)[k] if k < 8 else 0) for k in range(W)]
+                    okf = isinstance(v, BV) and not expect_lanes(BV(W, v.b[:W]), u_op('mul', x_, const_bv(prime, W).b, W))
+                except Unsupported:
+                    okf = False
+        ctx.check(okf, R, nm + '|string-overload-forwards', so, 'string overload = the byte-pointer computation on (data(), size(), hash)', 'the std::string overload of %s does not forward (data(), size(), hash) to the byte-pointer computation (its own loop over `char` sign-extends bytes >= 0x80)' % nm)
     ctx.note('Not decided: digest equality for all inputs (the block functions\' full data flow).')
 
 
